@@ -491,6 +491,21 @@ func (f *Frame) instr(in ssa.Instruction, st *State) {
 		// (ok, key, value): arbitrary enumeration
 		v := g.freshVal(t.Name(), t.Type())
 		g.assumeWF(st, v)
+		// a yielded entry is an entry of the map at the time it is yielded
+		if rg, isRange := t.Iter.(*ssa.Range); isRange && !t.IsString {
+			if mt, modeled := mapModeled(rg.X.Type()); modeled && len(v.Comps) == 1+1+ncomps(mt.Elem()) {
+				mv := f.val(rg.X, rg.X.Type())
+				mv.Typ = rg.X.Type()
+				kv := Val{Typ: mt.Key(), Comps: v.Comps[1:2]}
+				has := g.mapHas(st, mv, kv)
+				cur := g.mapLookup(st, mv, kv)
+				eqs := []Term{has}
+				for i := range cur.Comps {
+					eqs = append(eqs, tEq(v.Comps[2+i], cur.Comps[i]))
+				}
+				g.assume(st.cond, tImp(v.Comps[0], tAnd(eqs...)))
+			}
+		}
 		f.set(t, v)
 	case *ssa.Defer:
 		d := deferred{call: t, guard: st.cond}
